@@ -65,6 +65,21 @@ var c18Templates = []c18Template{
 	metT("max_without", "max without (msg) (count_over_time(", "))"),
 	metT("count_by", "count by (container_image) (count_over_time(", "))"),
 	metT("vec_lit", "count_over_time(", ") * 3"),
+	{name: "sum_unwrap", metric: true, build: func(a, _, r string) string { return "sum_over_time(" + a + " | unwrap weight [" + r + "]) by (container)" }},
+	{name: "max_unwrap_image", metric: true, build: func(a, _, r string) string {
+		return "max_over_time(" + a + " | unwrap weight [" + r + "]) by (container_image)"
+	}},
+	{name: "first_unwrap_image", metric: true, build: func(a, _, r string) string {
+		return "first_over_time(" + a + " | unwrap weight [" + r + "]) by (container_image)"
+	}},
+	{name: "last_unwrap_image", metric: true, build: func(a, _, r string) string {
+		return "last_over_time(" + a + " | unwrap weight [" + r + "]) by (container_image)"
+	}},
+	{name: "logfmt_unwrap", metric: true, build: func(a, _, r string) string {
+		return "sum_over_time(" + a + " | logfmt | unwrap k [" + r + "]) by (container, level)"
+	}},
+	{name: "count_offset", metric: true, build: func(a, _, r string) string { return "count_over_time(" + a + "[" + r + "] offset 5s)" }},
+	{name: "rate", metric: true, build: func(a, _, r string) string { return "sum by (container) (count_over_time(" + a + " |~ \"r[0-5]\" [" + r + "]))" }},
 	metT("lit_vec", "100 - sum by (container) (count_over_time(", "))"),
 	metT("cmp", "sum by (container) (count_over_time(", ")) > 1"),
 	metT("cmp_bool", "sum by (container) (count_over_time(", ")) >= bool 2"),
@@ -126,6 +141,14 @@ func (propC18) Gen(r *Rng, run uint64, tier string) *Plan {
 		p.Tags["unsorted"] = "1"
 	}
 	p.World = GenWorld(r.Sub("world"), spec)
+	for i := range p.World.Containers {
+		if r.Bool(0.6) {
+			if p.World.Containers[i].Labels == nil {
+				p.World.Containers[i].Labels = map[string]string{}
+			}
+			p.World.Containers[i].Labels["weight"] = fmt.Sprint(1 + r.Intn(9))
+		}
+	}
 	if cli {
 		// Rendered output is only determined for distinct timestamps.
 		seen := map[int64]bool{}
